@@ -62,18 +62,21 @@ def run_libpair(case) -> dict:
     from checks import offline, plan as P
     from ref import gkdi
 
-    _, seed, fields, fl = case
+    _, seed, fields, fl = case[:4]
+    grp = 1 if fl == "thread" else None  # "thread": the two protects are made by caller threads of one process at the same time
     ops = [{"op": "load_key", "rk": 0},
-           {"op": "protect", "fl": fl, "sid": offline.SID_A, "rk": 0, "net": "offline", "data": 24},
-           {"op": "protect", "fl": fl, "sid": offline.SID_A, "rk": 0, "net": "offline", "data": 24},
-           {"op": "unprotect", "fl": fl, "net": "offline", "blob": {"from_op": 1, "graft": {"from_op": 2, "fields": list(fields)}}},
-           {"op": "unprotect", "fl": fl, "net": "offline", "blob": {"from_op": 1}}]
+           {"op": "protect", "fl": fl, "group": grp, "sid": offline.SID_A, "rk": 0, "net": "offline", "data": 24},
+           {"op": "protect", "fl": fl, "group": grp, "sid": offline.SID_A, "rk": 0, "net": "offline", "data": 24},
+           {"op": "unprotect", "fl": "sync" if fl == "thread" else fl, "net": "offline", "blob": {"from_op": 1, "graft": {"from_op": 2, "fields": list(fields)}}},
+           {"op": "unprotect", "fl": "sync" if fl == "thread" else fl, "net": "offline", "blob": {"from_op": 1}}]
     plan = {"seed": seed, "clock_ft": gkdi.interval_start_filetime(365, 3, 4) + seed, "root_keys": [[5, "SHA256", ("DH", "ECDH_P256")[seed % 2]]],
             "caller_sids": [offline.SID_A], "ctx": {"kind": "stub", "legs": 2, "sig": 16}, "ops": ops}
+    if fl == "thread":
+        plan["threads"] = case[4]
     tr = P.execute_plan(plan)
     a, b_, crossed, plain = tr.ops[1], tr.ops[2], tr.ops[3], tr.ops[4]
     viol = None
-    probes = {"library_made_pairs": 1}
+    probes = {"library_made_pairs": 1, "library_made_pairs_threads": int(fl == "thread")}
     if a.outcome.kind != "ok" or b_.outcome.kind != "ok" or plain.outcome.kind != "ok" or plain.outcome.value != a.plaintext:
         raise common.HarnessError(f"library-made pair does not round-trip: {a.outcome.brief()} {b_.outcome.brief()} {plain.outcome.brief()}")
     out = crossed.outcome
@@ -125,7 +128,7 @@ def run_concurrent(case) -> dict:
             ops = ops[1:]
     elif family == "tconc":
         # caller threads of one process (sync API): the valid blob twice and the modified one, all at once
-        ops = [{"op": "unprotect", "fl": "thread", "net": net, "blob": b_, "group": 1} for b_ in ((specA, specBm, specA) if order else (specBm, specA))]
+        ops = [{"op": "unprotect", "fl": "thread", "net": net, "blob": b_, "group": 1} for b_ in ((specA, specBm, specA), (specBm, specA), (specBm, specA, specBm), (specA, specBm, specBm), (specBm, specA, specA))[rng.randrange(5)]]
     else:
         ops = [{"op": "unprotect", "fl": "async", "net": net, "blob": specA, "group": 1}, {"op": "unprotect", "fl": "async", "net": net, "blob": specBm, "group": 1}]
         if order:
@@ -175,7 +178,7 @@ class C04(common.Check):
                   "blob store": "simulated (fault injection at rest)", "network": "simulated, no DC reachable (attempts observed at the seam)",
                   "base blobs": "reference encoder (ref.cms) and the library's own protect"}
     assumptions = ["AES-KW and AES-GCM from the cryptography package are trusted primitives"]
-    required_fired = ("rot", "tear", "algsub", "big_content", "concurrent_pairs", "outcome_raise", "outcome_same", "shared_cache_histories", "nested_plaintext", "thread_pairs", "thread_overlap", "library_made_pairs", "forged_records")
+    required_fired = ("rot", "tear", "algsub", "big_content", "concurrent_pairs", "outcome_raise", "outcome_same", "shared_cache_histories", "nested_plaintext", "thread_pairs", "thread_overlap", "library_made_pairs", "library_made_pairs_threads", "forged_records")
 
     def exhaustive(self, tier):
         return tier == "thorough"
@@ -271,9 +274,12 @@ class C04(common.Check):
             out.append(["libpair", i, GRAFTS[i % len(GRAFTS)], ("sync", "async")[(i // len(GRAFTS)) % 2]])
         from checks import threadpure
 
-        for i in range(300 if tier == "quick" else 12000):
+        for i in range(len(GRAFTS) * (14 if tier == "quick" else 300)):
+            out.append(["libpair", 5000 + i, GRAFTS[i % len(GRAFTS)], "thread",
+                        {"mode": "marks", "q": (0.7, 0.9, 1.0)[i % 3], "p": (0.0, 0.02)[(i // 3) % 2]} if i % 2 else {"mode": "prob", "p": (0.02, 0.1, 0.4)[(i // 2) % 3]}])
+        for i in range(480 if tier == "quick" else 12000):
             out.append(["tconc", i, ("online", "offline", "offline")[i % 3], ("tagflip", "content", "key_info", "tagflip", "content", "enc_cek", "flip", "key_identifier")[(i // 3) % 8],
-                        {"mode": "marks", "q": (0.7, 0.9, 1.0)[(i // 2) % 3], "p": 0.0} if i % 2 else ({"mode": "prob", "p": (0.05, 0.3, 0.5)[(i // 4) % 3]} if i % 4 else threadpure.policy_for(i // 4))])
+                        {"mode": "marks", "q": (0.3, 0.5, 0.7, 0.9, 1.0)[(i // 2) % 5], "p": (0.0, 0.01)[(i // 10) % 2]} if i % 2 else ({"mode": "prob", "p": (0.05, 0.3, 0.5)[(i // 4) % 3]} if i % 4 else threadpure.policy_for(i // 4))])
         # two overlapping async unprotects on one loop: a valid blob and a modified one that borrows parts of the valid one
         for i in range(400 if tier == "quick" else 20000):
             out.append(["conc", i, ("online", "offline")[i % 2], ("key_info", "key_identifier", "enc_cek", "content", "flip", "tagflip")[i % 6]])
@@ -332,7 +338,7 @@ class C04(common.Check):
         if case[0] == "forge":
             return {"kind": "forge", "base_blob": case[1], "dh_public_value": FORGE_VARIANTS[case[2]]}
         if case[0] == "libpair":
-            return dict(zip(("kind", "seed", "fields_taken_from_the_other_blob", "flavour"), case))
+            return dict(zip(("kind", "seed", "fields_taken_from_the_other_blob", "flavour", "thread_policy"), case))
         if case[0] in ("conc", "hist", "tconc"):
             return dict(zip(("kind", "seed", "net", "what_of_A_is_grafted_into_B"), case))
         cat = blobs.catalogue(next(iter(blobs._CAT)))
